@@ -12,7 +12,7 @@ UNITS = [llc.unit('C21_CLAUSES', replay=dict(src='replay/c21_replay.cpp', cxxfla
 # peripheral latency never skips a pending instant: plan_next_connection_event (contract stated in C23.py)
 UNITS += [dict(u, enforce=['plan_next_connection_event']) for u in _load('C23').UNITS if u['name'] == 'plan_next']
 # the call order in end_event / timeout (real bodies): received data, plan the next event with the pending instant, apply the pending indication for the NEW event counter; handle_phy_request defers LL_PHY_UPDATE_IND
-UNITS += [lle.unit(['ll_timeout', 'll_end_event', 'valid_phy_encoding', 'handle_phy_request', 'handle_received_data', 'handle_pending_phy_request'])]
+UNITS += [lle.unit(['ll_timeout', 'll_end_event', 'valid_phy_encoding', 'handle_phy_request', 'handle_received_data', 'handle_pending_phy_request'], defines=['C21_CLAUSES'])]
 META = dict(
     level='other',
     explanation="link_layer<>::handle_ll_control_data and handle_pending_ll_control (link_layer.hpp, real bodies, every PDU, every connection event counter incl. wrap around): an "
